@@ -169,7 +169,6 @@ func VerifHarness_C04_O4() {
 // full order lemma); here on the real sort of a frame's events.
 func VerifHarness_C04_O2() { VerifHarness_C01_O5() }
 
-
 // C04/O5 — every event is committed at most once and a round's payload goes to
 // exactly one block: the round-processing step (same obligation as C02/O1, with
 // failing commit callbacks and failing store writes).
